@@ -457,7 +457,13 @@ func (w *World) Dial(port int, passive bool) *Conn {
 		sip = loopback()
 	}
 	sa := &net.TCPAddr{IP: sip, Port: port}
-	ca := &net.TCPAddr{IP: loopback(), Port: 40000 + id}
+	// clients come from three source hosts, so that source ports repeat
+	// between connections that are open at the same time (distinct
+	// four-tuples all the same, as with clients behind different addresses):
+	// nothing in the server may take the peer's port for an identity
+	cip := loopback()
+	cip[3] = byte(1 + (id-1)%3)
+	ca := &net.TCPAddr{IP: cip, Port: 40000 + (id-1)/3}
 	cl := &Conn{w: w, ID: id, in: a, out: b, name: "c" + itoa(id) + ".c", Passive: passive, la: ca, ra: sa}
 	sv := &Conn{w: w, ID: id, Server: true, in: b, out: a, name: "c" + itoa(id) + ".s", la: sa, ra: ca}
 	cl.Peer, sv.Peer = sv, cl
